@@ -16,7 +16,7 @@ from native.bounded._common import FLAGS, Checker
 
 BOUND = ("32 (x3 thorough) normalised monotonic circuits: 1..3 variables with ids drawn from 0..6 (non-contiguous scopes included), categorical inputs "
          "with 2..3 states and 1..3 units (softmax probabilities), Hadamard or Kronecker products, sum layers of arity 1..3 with softmax weights (dense or "
-         "mixing), optional second sum level, one output unit; four (fold, optimize) settings rotating; plus 6 circuits whose sum weight is a Kronecker product of softmax matrices, compiled with optimize=True (tensor-dot layers), fold off / on, and 2 circuits with a Kronecker product of arity 3 (Tucker layer of arity 3); 20000 samples per circuit, torch seed fixed by "
+         "mixing), optional second sum level, one output unit; four (fold, optimize) settings rotating; plus 6 circuits whose sum weight is a Kronecker product of softmax matrices, compiled with optimize=True (tensor-dot layers), fold off / on, and 2 circuits with a Kronecker product of arity 3 (Tucker layer of arity 3); 20000 samples per circuit (every 8th circuit sampled a second time after all its parameters were perturbed in place), torch seed fixed by "
          "VERIF_SEED; cell threshold |freq - p| <= 6.5 sqrt(p(1-p)/N) + 2/N (false alarm < 1e-8 per run)")
 RULE = "one case = (circuit index, fold, optimize, clause); distinct by that tuple"
 N = 20000
@@ -152,5 +152,24 @@ def run(tier, seed):
                 fm = np.array([(s[:, v] == a).mean() for a in range(dom[v])])
                 t = 6.5 * np.sqrt(pm * (1 - pm) / N) + 2.0 / N
                 ck.true("column_marginal_of_its_variable", dict(base, var=v), bool(np.all(np.abs(fm - pm) <= t)), f"variable {v}: {fm} vs {pm}")
+            if n % 8 == 0 and n < first_kron:
+                # history: the SAME compiled circuit after its parameters took other values (a training step, load_state_dict): samples follow the
+                # distribution the circuit evaluates NOW (nothing derived from the old weights may survive)
+                with torch.no_grad():
+                    g = torch.Generator().manual_seed(77 + n)
+                    for prm in tc.parameters():
+                        prm.add_(1.5 * torch.randn(prm.shape, generator=g, dtype=prm.dtype))
+                p2 = bridge.eval_compiled(tc, x, "sum-product")[:, 0, 0]
+                ck.eq("normalised_after_update", base, np.array([p2.sum()]), np.array([1.0]), rtol=1e-9)
+                s2 = np.rint(SamplingQuery(tc)(N)[0].detach().cpu().numpy()).astype(np.int64)
+                counts2 = np.zeros(len(cells))
+                for row in map(tuple, s2[:, vs]):
+                    if row in index:
+                        counts2[index[row]] += 1
+                f2 = counts2 / N
+                thr2 = 6.5 * np.sqrt(p2 * (1 - p2) / N) + 2.0 / N
+                w2 = int(np.argmax(np.abs(f2 - p2) - thr2))
+                ck.true("frequencies_match_probabilities_after_update", base, bool(np.all(np.abs(f2 - p2) <= thr2)),
+                        f"after a parameter update, cell {cells[w2]}: frequency {f2[w2]:.5f} vs probability {p2[w2]:.5f} (threshold {thr2[w2]:.5f})")
         ck.guarded("sampling", base, go)
     return ck.res
